@@ -1,14 +1,16 @@
 (* Property C16: statement parsing is compositional: context never changes a statement's parse.
-   Proved by computation in the kernel on the pipeline model, for every ordered pair of the 83
-   statement templates (6889 pairs): if each parses without diagnostics on its own, their
+   Proved by computation in the kernel on the pipeline model, for every ordered pair of the 120
+   statement templates (14400 pairs): if each parses without diagnostics on its own, their
    concatenation parses without diagnostics and its statement list is exactly the statements of
    the first followed by those of the second (same node kinds, same texts), at top level and
-   inside a block body -- outside three listed known-finding classes, which have witnesses:
+   inside a block body -- outside four listed known-finding classes, which have witnesses:
    `let` is parsed by two different statement routines (alias declaration at the start of a file,
    let statement after the first expression statement and inside every block), and after an
    assignment statement the operator loop keeps going, so a following statement that starts with
    a binary operator token is glued to it (x = 1; -a;); and an anonymous block that is the last
-   statement of a block body is left as a bare BLOCK_EXPR instead of an expression statement.
+   statement of a block body is left as a bare BLOCK_EXPR instead of an expression statement;
+   and an empty statement `;` directly after a statement handled by the top-level item routine is
+   a diagnostic although it is accepted after expression statements and inside every block.
    PARTIAL: sequences longer than two and statements beyond the templates are checked on the
    implementation by the `accept` family (random sequences of generated statements). *)
 From Coq Require Import NArith Arith List Bool.
@@ -37,6 +39,11 @@ Proof. exact assignment_glues_operator_refuted. Qed.
 Theorem C16_trailing_anon_block_refuted : composes_block T_decl_int T_anon_block = false.
 Proof. exact trailing_anon_block_refuted. Qed.
 
+Theorem C16_empty_after_item_refuted :
+  composes_top T_decl_int T_empty = false /\ composes_top T_expr_call T_empty = true /\
+  composes_block T_decl_int T_empty = true.
+Proof. exact empty_after_item_refuted. Qed.
+
 Example C16_nonvacuous : (6889 <=? List.length id_pairs)%nat = true /\
   (6551 <=? List.length (filter (fun '(i, j) => negb (k_c16 i j)) id_pairs))%nat = true.
 Proof. vm_compute. auto. Qed.
@@ -46,3 +53,4 @@ Print Assumptions C16_pairs_compose_in_a_block.
 Print Assumptions C16_let_context_refuted.
 Print Assumptions C16_assignment_glues_operator_refuted.
 Print Assumptions C16_trailing_anon_block_refuted.
+Print Assumptions C16_empty_after_item_refuted.
